@@ -36,7 +36,7 @@ use vh::{rng::SplitMix64, sdk, CaseResult, Fail, Run};
 const FMT: &str = "image/png";
 const WORK_DIR: &str = "/verif/work/C19";
 /// Watchdog for one child (two reads). Healthy children finish in well under 3 s even for 300 manifests.
-const WATCHDOG_S: u64 = 150;
+const WATCHDOG_S: u64 = 60;
 const THREAD_STACK: usize = 1 << 20;
 /// Same-length strings present in every Builder-made manifest (assertion data / claim generator name); editing them
 /// in the store bytes changes every manifest box hash, so every recorded ingredient hash becomes stale.
